@@ -46,25 +46,28 @@ func (q *MultiOpQueryer) Subscribe(req *requests.Request, closeCh <-chan struct{
 	errCh := make(chan error)
 	defer close(errCh)
 
+	// closed when the subscriber asked to stop
+	closeDone := make(chan struct{})
+
 	go func() {
 		defer func() {
 			recover()
 		}()
 		<-closeCh
+		close(closeDone)
 		verifhook.At("qs.closer.gotClose")
 		conn.Close()
 	}()
 
-	// the subscriber closes resCh when it stops listening: a message that arrives
-	// after that has nowhere to go and ends the reader instead of the process
+	// the subscriber signals on closeCh (and closes it) when it stops listening: a message that
+	// arrives after that has nowhere to go and ends the reader
 	send := func(resp *requests.Response) (delivered bool) {
-		defer func() {
-			if recover() != nil {
-				delivered = false
-			}
-		}()
-		resCh <- resp
-		return true
+		select {
+		case resCh <- resp:
+			return true
+		case <-closeDone:
+			return false
+		}
 	}
 
 	go func() {
